@@ -19,12 +19,13 @@ RULE = ('Hypothesis draws a backend configuration (sample rate, 8..64 branches, 
         'one fine bin of the tone; for chirps the peak of successive fine spectra must follow f_start + drift*t_mid within '
         '1.5 bins (+ half the per-spectrum sweep). get_raw_params must reproduce fch1/chan_bw/orientation/sizes; '
         'get_pfb_waterfall and get_waterfall_from_raw (2 pols, 8 bit, as documented) must equal an own reduction with the '
-        'requested FFT length and integration factor for padded, unpadded and aligned headers. Non-trivial: peak >= 20x the '
+        'requested FFT length and integration factor for padded, unpadded and aligned headers. In a third of the cases the '
+        'same path held a different recording earlier in the process (other orientation/centre/sizes) that the library\'s readers were used on. Non-trivial: peak >= 20x the '
         'median bin and (start_chan > 0 or descending).')
 ASSUMPTIONS = ['fine bin k of coarse channel c (after fftshift) is at OBSFREQ + (c-(nchan-1)/2)*CHAN_BW + (k-L/2)*CHAN_BW/L',
                'PFB spectrum n is centred num_taps/2 windows after its first sample', 'tone in the DC-straddling channel and exact channel centres excluded (property)']
 REQUIRED_CLASSES = ['asc', 'desc', 'start_chan=0', 'start_chan>0', 'pols=1', 'pols=2', 'chirp', 'L!=n', 'quicklook',
-                    'quicklook_unpadded', 'quicklook_aligned', 'quicklook_padded', 'array', 'quantity_arguments', 'record_after_aborted_record']
+                    'quicklook_unpadded', 'quicklook_aligned', 'quicklook_padded', 'array', 'quantity_arguments', 'record_after_aborted_record', 'path_used_earlier']
 
 
 @st.composite
@@ -58,7 +59,7 @@ def strategy_(draw, tier):
         t['pol'] = 0
         t['bins_per_spectrum'] = draw(st.sampled_from([1, -1])) * draw(gen.finite(0.3, 1.5))
     return dict(c=c, L=L, n_int=draw(st.integers(1, 4)), units=draw(st.sampled_from([None, None, 'GHz', 'MHz', 'kHz'])),
-                abort_first=abort_first,
+                abort_first=abort_first, earlier_use=draw(st.sampled_from([False, False, True])),
                 directio=draw(st.sampled_from(['absent', 0, 1, 1])), target_mod=draw(st.sampled_from([None, 0, 5])))
 
 
@@ -176,6 +177,10 @@ def run_case(case, ctx):
         for i in range((case['target_mod'] - ncards0) % 32):
             hd[f'ZZF{i:03d}'] = i
     stem = ctx.path('tone')
+    if case.get('earlier_use'):
+        # the same path held a different recording before, and the library's readers were used on it
+        obs.cls('path_used_earlier')
+        volt.earlier_use(stem, dict(c, directio=dio))
     ok, _ = core.call(obs, 'record', volt.record, be, stem, c, header_dict=hd)
     if not ok:
         return obs
